@@ -163,9 +163,17 @@ class Builder:
         self.max_depth = max_depth
         self.counter = 0
         self.allow_uncertainty = True
+        # Chain never required unique step names and fit/predict ignore them: repeat them, also across nesting levels
+        self.naming = str(rng.choice(["unique", "unique", "unique", "pool", "pool", "same", "kind"]))
 
-    def name(self, base):
+    def name(self, base, step=None):
         self.counter += 1
+        if self.naming == "pool":
+            return str(self.rng.choice(["spline", "trend", "step"]))
+        if self.naming == "same":
+            return "step"
+        if self.naming == "kind" and step is not None:
+            return type(step).__name__.lower()
         return "%s%d" % (base, self.counter)
 
     # -- scalar gridders ---------------------------------------------------
@@ -280,13 +288,13 @@ class Builder:
             if k in red_at:
                 step, m, weighted = self.reduction(m, pts, weighted)
                 pts = None
-                out.append((self.name("reduce"), step))
+                out.append((self.name("reduce", step), step))
                 continue
             if ncomp == 1:
                 step = self.gridder(m, pts, last, depth, weighted)
             else:
                 step = self.vector_step(ncomp, m, pts, last, depth, weighted)
-            out.append((self.name("step"), step))
+            out.append((self.name("step", step), step))
         return out, m, weighted
 
 
@@ -341,8 +349,41 @@ def vector_chain(run, verde, gen, rng, tier, batch):
         run.count("workload:vector_chains")
 
 
+def _compare(run, monitor, got, want, scale, witness):
+    """A relation between two executions that only the workload can pair up (both sides are produced by monitored verde calls)."""
+    got, want = (got if isinstance(got, tuple) else (got,)), (want if isinstance(want, tuple) else (want,))
+    run.evaluated(monitor)
+    bad = len(got) != len(want)
+    for g, w in zip(got, want):
+        g, w = np.asarray(g, dtype="float64"), np.asarray(w, dtype="float64")
+        if g.shape != w.shape or (np.isnan(g) != np.isnan(w)).any():
+            bad = True
+            break
+        fin = ~np.isnan(g)
+        if fin.any() and np.max(np.abs(g[fin] - w[fin])) > 1e-9 * scale:
+            bad = True
+            break
+    if bad:
+        run.violation(monitor, witness["what"], dict(witness, got=got, expected=want), key=monitor)
+
+
+def _scale(problem):
+    data = problem.data if isinstance(problem.data, tuple) else (problem.data,)
+    return max(float(np.max(np.abs(np.asarray(d, dtype="float64")))) for d in data) + 1e-300
+
+
+def _describe_steps(est):
+    return [(name, type(step).__name__) for name, step in est.steps]
+
+
 def refit(run, verde, gen, rng, tier, batch):
-    """Histories: the same object fitted on A, then on other data B (other points, other size, other weights)."""
+    """
+    Life-cycle histories: the same object fitted on A, then on other data B (other bounding box, size, weights); clones taken after a
+    fit and fitted on B; set_params on a held step / a replaced step list between fits. Block reductions here have no explicit
+    region, so every fit must lay its blocks on the bounding box of the data of THAT fit.
+    """
+    from sklearn.base import clone
+
     for _ in range(batch):
         ncomp = int(rng.choice([1, 1, 2]))
         problems = [Problem(rng, gen, tier, ncomp=ncomp, hi=80) for _ in range(int(rng.integers(2, 4)))]
@@ -352,24 +393,85 @@ def refit(run, verde, gen, rng, tier, batch):
         length = int(rng.choice([1, 2, 3, 3, 4]))
         m = min(p.n for p in problems)
         front = []
-        if length >= 2 and m >= 20 and rng.random() < 0.4:  # a reduction sized on every point set of the history
+        if length >= 2 and m >= 20 and rng.random() < 0.6:  # a region-less reduction sized on every point set of the history
             shape = (int(rng.integers(2, 5)), int(rng.integers(2, 5)))
             m = min(_occupied(p.pts, shape) for p in problems)
+            kwargs = {"shape": shape, "center_coordinates": bool(rng.random() < 0.4)}
             if rng.random() < 0.5:
-                front, any_weighted = [("reduce", verde.BlockReduce(np.average, shape=shape))], False
+                reducer, any_weighted = verde.BlockReduce(np.average, **kwargs), False
             else:
-                front, any_weighted = [("reduce", verde.BlockMean(shape=shape))], True
+                reducer, any_weighted = verde.BlockMean(**kwargs), True
+            front = [(builder.name("reduce", reducer), reducer)]
             length -= 1
         # the coordinates differ from fit to fit: size the steps without knowing them
         steps, _, _ = builder.steps(length, m, None, any_weighted, depth=0, ncomp=ncomp, allow_reduce=False)
         est = verde.Chain(front + steps)
+        pristine = clone(est)  # never fitted: what "a brand-new chain" means below
         for k, problem in enumerate(problems):
             est.fit(*problem.args())
             predict_around(run, rng, est, problem)
-        if rng.random() < 0.5:  # and once more on the very first data
-            est.fit(*problems[0].args())
-            est.predict(problems[0].coordinates)
+            if k >= 1 or rng.random() < 0.5:
+                run.count("history:fit_number_%d" % min(k + 1, 3))
+        # a clone taken AFTER fits, fitted on the last data set, must behave like a brand-new chain
+        last = problems[-1]
+        if not any(isinstance(s, verde.VectorSpline2D) for _, s in _flat_steps(est, verde)):
+            after = clone(est)
+            after.fit(*last.args())
+            new = clone(pristine)
+            new.fit(*last.args())
+            _compare(run, "clone_after_fit_equals_new", after.predict(last.coordinates), new.predict(last.coordinates), _scale(last),
+                     {"what": "a clone taken after fitting, fitted on other data, predicts differently from a brand-new chain fitted on that data",
+                      "steps": _describe_steps(est), "coordinates": last.coordinates, "data": last.data, "weights": last.weights})
+            run.count("history:clone_after_fit")
+        # set_params on a held step between fits, then fit again (the blueprint of the refit monitor follows the new parameters)
+        roll = rng.random()
+        target = problems[0]
+        if roll < 0.4:
+            for name, step in est.steps:
+                if isinstance(step, verde.Trend):
+                    step.set_params(degree=(step.degree + 1) % 3)
+                elif isinstance(step, verde.Spline):
+                    step.set_params(damping=step.damping * 3.0)
+                elif isinstance(step, verde.BlockReduce) and step.shape is not None:
+                    step.set_params(shape=(step.shape[0] + 1, step.shape[1]))
+                elif isinstance(step, verde.KNeighbors):
+                    step.set_params(reduction=np.median if step.reduction is np.mean else np.mean)
+            run.count("history:set_params_on_held_steps")
+            est.fit(*target.args())
+            predict_around(run, rng, est, target)
+        elif roll < 0.9 and ncomp == 1:
+            # replace the step list: drop / add / swap a predicting step (same names may stay in use)
+            new_steps = list(est.steps)
+            extra = verde.Trend(int(rng.integers(0, 3))) if rng.random() < 0.5 else verde.Spline(damping=_log_uniform(rng, 1e-2, 1.0))
+            action = str(rng.choice(["append", "replace_last", "drop_last" if len(new_steps) > 1 and hasattr(new_steps[-2][1], "predict") else "append"]))
+            if action == "append":
+                new_steps.append((builder.name("step", extra), extra))
+            elif action == "replace_last":
+                new_steps[-1] = (new_steps[-1][0], extra)
+            else:
+                new_steps.pop()
+            est.set_params(steps=new_steps)
+            run.count("history:step_list_replaced:" + action)
+            est.fit(*target.args())
+            predict_around(run, rng, est, target)
+        elif rng.random() < 0.5:  # and once more on the very first data
+            est.fit(*target.args())
+            est.predict(target.coordinates)
         run.count("workload:histories")
+
+
+def _flat_steps(est, verde):
+    out = []
+    for name, step in est.steps:
+        out.append((name, step))
+        if isinstance(step, verde.Chain):
+            out.extend(_flat_steps(step, verde))
+        elif isinstance(step, verde.Vector):
+            for comp in step.components:
+                out.append((name, comp))
+                if isinstance(comp, verde.Chain):
+                    out.extend(_flat_steps(comp, verde))
+    return out
 
 
 def filters(run, verde, gen, rng, tier, batch):
@@ -430,7 +532,7 @@ def dtype_sweep(run, verde, gen, rng, tier):
 def integer_first_prediction(run, verde, gen, rng, tier):
     """
     A chain whose first prediction has an integer dtype (KNeighbors with a max/min reduction on integer data) followed by a trend.
-    Chain.predict accumulates in place in the array of the first prediction; the monitors judge the sum whenever it returns.
+    Chain.predict must return the float sum (it used to accumulate in place in the integer array of the first prediction and raise).
     """
     problem = Problem(rng, gen, tier, ncomp=1, hi=50, weighted=False, dtype_class=str(rng.choice(["int16", "int32", "int64"])))
     knn = verde.KNeighbors(k=int(rng.integers(2, 4)), reduction=(np.max if rng.random() < 0.5 else np.min))
